@@ -1123,11 +1123,47 @@ fn python_level(sink: &mut Sink, rng: &mut Rng, args: &Args, n_random: usize) {
         sessions.push(py_session(m, Some(&f[..]), *p, t));
         sessions.push(py_session(m, None, *p, t));
     }
+    // the POS table of the dictionary the sessions run on, for the model of the projections (builder G's Model/PyProjection.v)
+    let res = format!("{}/python/tests/resources", repo());
+    let pl: Option<String> = Config::new(Some(format!("{}/sudachi.json", res).into()), Some(res.clone().into()), None)
+        .ok()
+        .and_then(|c| JapaneseDictionary::from_cfg(&c).ok())
+        .map(|d| clist(d.grammar().pos_list.iter().map(|p| clist(p.iter().map(|c| ctext(c))))));
     match run_py_sessions(args, &sessions) {
         Ok(results) => {
             for k in 0..todo.len() {
                 let s = &sessions[2 * k];
-                let id = sink.case_rust_only(json!({"kind": "c11-py", "session": s}), true);
+                let desc = json!({"kind": "c11-py", "session": s});
+                // Coq side (C11_projection_same_as_all_fields as a run): the model's projection of the morphemes of the
+                // fields=None session must be the strings Morpheme.surface() returned in the session with the field set
+                let term = match (&pl, results[2 * k][0]["morphemes"].as_array(), results[2 * k + 1][0]["morphemes"].as_array()) {
+                    (Some(pl), Some(bm), Some(am)) if am.len() == bm.len() && !am.is_empty() && am.iter().zip(bm.iter()).all(|(x, y)| x["begin"] == y["begin"] && x["end"] == y["end"]) => {
+                        let ms = clist(am.iter().map(|m| {
+                            format!(
+                                "mkPym {} {} {} {} {}",
+                                ctext(m["raw_surface"].as_str().unwrap_or("")),
+                                cn(m["pos_id"].as_u64().unwrap_or(0)),
+                                ctext(m["normalized_form"].as_str().unwrap_or("")),
+                                ctext(m["reading_form"].as_str().unwrap_or("")),
+                                ctext(m["dictionary_form"].as_str().unwrap_or(""))
+                            )
+                        }));
+                        let py = clist(bm.iter().map(|m| ctext(m["surface"].as_str().unwrap_or(""))));
+                        let proj = match s["projection"].as_str() {
+                            None => "None".to_string(),
+                            Some(x) => format!("(Some \"{}\"%string)", x),
+                        };
+                        Some(format!("check_projection {} {} {} {}", proj, pl, ms, py))
+                    }
+                    _ => None,
+                };
+                let id = match term {
+                    Some(t) => {
+                        sink.tag("python_projection_vs_model");
+                        sink.case(t, desc, true)
+                    }
+                    None => sink.case_rust_only(desc, true),
+                };
                 sink.tag("python_create_fields_projection");
                 if !s["projection"].is_null() {
                     sink.tag(&format!("python_projection_{}", s["projection"].as_str().unwrap_or("")));
@@ -1146,7 +1182,7 @@ fn python_level(sink: &mut Sink, rng: &mut Rng, args: &Args, n_random: usize) {
 }
 
 pub fn run(args: &Args) {
-    let mut sink = Sink::new("C11", &args.out, &["Model.Codec", "Model.CodecIO", "Model.CodecCheck"], args.seed, &args.tier);
+    let mut sink = Sink::new("C11", &args.out, &["Model.Codec", "Model.CodecIO", "Model.CodecCheck", "Model.PyProjection"], args.seed, &args.tier);
     sink.shard_size = 12;
     sink.rule("(a) words of generated dictionaries: a system dictionary (also re-labelled as the format without synonym ids) or a system dictionary with TWO user dictionaries on top, the second with references from user words to user words (strings across the 127/128 prefix boundary, astral characters, forms empty / equal / different, arrays of 0/1/2/63/64/65/127 ids incl. directed lexicons with these lengths in every array field, own and foreign dictionary forms) x ALL 1024 requested subsets for some words and 40 sampled subsets (always incl. {}, {SURFACE}, {DIC_FORM_WORD_ID}, {NORMALIZED_FORM}, {READING_FORM}, each split alone, all) for the others: raw WordInfoData of LexiconSet::get_word_info_subset(normalize s) vs model, requested accessors vs full load; (b) analyses of texts over the shipped system dictionary with user2.csv and user1.csv compiled on top as dictionaries 1 and 2, with/without path-rewrite plugins x random subset x initial mode x mode x both orders of set_mode/set_subset vs the full-field analysis, and the tokenizer's resulting subset vs model; (c) sequences of 4..10 operations (set_mode, set_subset, analyse + collect_results) on two long-lived tokenizers sharing two MorphemeLists, every analysis vs a fresh full-field analysis in the same mode, the subset each list reports after a collection vs model; (d) MorphemeList::empty -> lookup(query, subset) -> split_into(A / B) vs the lexicon read with all fields; (e) split_into of the morphemes of an analysis (directed subsets x texts, and random ones) into target lists with a history (filled before by tokenizers with narrower / wider subsets, by lookup, by earlier splits, cleared or not) vs the same split of a fresh full-field analysis into a fresh list, on ranges, word ids, every requested field and the subset the target reports; (f) sudachipy sessions create(mode, fields=F, projection=P) for small F x every P x modes C / A (directed) and random F, P, texts, in the module built from the working tree: Morpheme.surface() (the projected form) and every field of F vs the session with fields=None; every case non-trivial except sequences with fewer than two analyses; distinct by generated Coq term");
     let mut rng = Rng::new(args.seed);
